@@ -5,6 +5,7 @@ package parser
 import (
 	"fmt"
 	"maps"
+	"reflect"
 
 	"github.com/xjslang/xjs/ast"
 	"github.com/xjslang/xjs/lexer"
@@ -245,7 +246,7 @@ func (p *Parser) ParseProgram() (*ast.Program, error) {
 	program.Statements = []ast.Statement{}
 	for p.CurrentToken.Type != token.EOF {
 		stmt := p.statementParseFn(p)
-		if stmt != nil {
+		if !isNilStatement(stmt) {
 			program.Statements = append(program.Statements, stmt)
 		}
 		p.NextToken()
@@ -255,6 +256,16 @@ func (p *Parser) ParseProgram() (*ast.Program, error) {
 			len(p.errors), p.errors[0])
 	}
 	return program, nil
+}
+
+// isNilStatement reports whether stmt is nil or a typed nil pointer, which is
+// what a statement parser that failed hands back through the Statement interface.
+func isNilStatement(stmt ast.Statement) bool {
+	if stmt == nil {
+		return true
+	}
+	v := reflect.ValueOf(stmt)
+	return v.Kind() == reflect.Ptr && v.IsNil()
 }
 
 // NextToken advances the parser to the next token in the stream.
